@@ -381,7 +381,12 @@ func c13Floats(c *Ctx) {
 				verdict = "short output"
 				return
 			}
-			body := out[4:]
+			// the encoding of the (only) value: a writer may surround it with NOP padding
+			body := firstBinaryValue(out)
+			if body == nil {
+				verdict = "no value found in the output"
+				return
+			}
 			lossless := float64(float32(f)) == f
 			switch {
 			case body[0] == 0x40 && len(body) == 1:
